@@ -129,7 +129,7 @@ def check_c14(tier: str, seed: int) -> int:
 
     t0 = time.time()
     st, _ = tlcrun.check("Prng", "Prng.cfg", workers=8, timeout=600)
-    nprog, nsteps, npairs, psteps = (32, 22, 16, 16) if tier == "quick" else (320, 40, 160, 30)
+    nprog, nsteps, npairs, psteps = (20, 20, 8, 14) if tier == "quick" else (320, 40, 160, 30)
     tdir = os.path.join(OUT, f"traces_C14_{tier}")
     import shutil
 
@@ -153,7 +153,7 @@ def check_c14(tier: str, seed: int) -> int:
                             scripts="U2_ScriptsReg", focus="F_Measure", cover=True)
     rc, out = tlcrun.tlc("MC", cfg2, ["-workers", "8"], timeout=2400)
     cover += tlcrun.parse_traces(out)
-    forced = stratified(cover, 260 if tier == "quick" else 3000, seed)
+    forced = stratified(cover, 200 if tier == "quick" else 3000, seed)
     cdir = os.path.join(tdir, "cover")
     os.makedirs(cdir)
     res = pool.replay_all(forced, procs=12, trace_dir=cdir)
@@ -163,7 +163,7 @@ def check_c14(tier: str, seed: int) -> int:
     cfail, cstats = tracecheck.validate(cfiles, procs=12)
     viols += [v for v in cfail if "C14" in v["props"]]
     tstats["lines"] += cstats["lines"]
-    unforced = stratified(cover, 96 if tier == "quick" else 1200, seed + 7)
+    unforced = stratified(cover, 64 if tier == "quick" else 1200, seed + 7)
     # twins
     procs = 8
     per = max(1, npairs // procs)
